@@ -50,6 +50,13 @@ struct Bounds {
     var_n: usize,
     /// lengths of the long family (round 2)
     long: Vec<usize>,
+    /// adjacent floats (round 7): every assignment of {x, up(x), down(x)} when r*c (or n) <= adj_sigma
+    adj_sigma: usize,
+    /// further vector lengths with the structured assignments (matrices: every lattice shape)
+    adj_vec_big: Vec<usize>,
+    /// the element-wise group runs the structured assignments on the shapes r,c <= adj_elem_lat
+    /// (the reduction group on every lattice shape)
+    adj_elem_lat: usize,
     e2_depth: (usize, usize),
     e2_signs: Vec<usize>,
     e2_stack_limit: usize,
@@ -73,6 +80,9 @@ fn bounds(tier: Tier) -> Bounds {
             softmax_len: 7,
             var_n: 12,
             long: long::LONG_QUICK.iter().chain(long::LONG_THOROUGH.iter()).copied().collect(),
+            adj_sigma: 10,
+            adj_vec_big: vec![11, 12, 13, 16, 21, 24, 32],
+            adj_elem_lat: 12,
             e2_depth: (5, 5),
             e2_signs: vec![2, 0],
             e2_stack_limit: 12,
@@ -92,6 +102,9 @@ fn bounds(tier: Tier) -> Bounds {
             softmax_len: 5,
             var_n: 9,
             long: long::LONG_QUICK.to_vec(),
+            adj_sigma: 6,
+            adj_vec_big: vec![7, 8, 12, 21],
+            adj_elem_lat: 4,
             e2_depth: (4, 3),
             e2_signs: vec![2],
             e2_stack_limit: 12,
@@ -213,6 +226,29 @@ impl Harness for C03 {
                 jobs.push(Job::new(format!("long-pair-{}-{}x{}", w, r, c), json!({"kind": "binary", "w": w, "r": r, "c": c, "long": true})));
             }
         }
+        // adjacent floats (round 7): values one or two ulps apart, one-operand element-wise and
+        // reduction groups on every lattice shape + Vec<T>
+        // (development aid for mutant comparisons: C03_NO_ADJ=1 plans the space without them)
+        let no_adj = std::env::var("C03_NO_ADJ").is_ok();
+        if no_adj {
+            eprintln!("[c03] C03_NO_ADJ is set: the adjacent-floats family (round 7) is NOT enumerated");
+        } else {
+            for w in WIDTHS {
+                for n in (1..=b.adj_sigma).chain(b.adj_vec_big.iter().copied()) {
+                    jobs.push(Job::new(format!("adj-vec-{}-n{}", w, n), json!({"kind": "vec", "w": w, "n": n, "fills": "adjacent", "sigma": b.adj_sigma, "adj": true})));
+                }
+            }
+            for (r, c) in lattice(b.lat) {
+                for w in WIDTHS {
+                    for g in ["elem", "reduce"] {
+                        if g == "elem" && r * c > b.adj_sigma && r.max(c) > b.adj_elem_lat {
+                            continue;
+                        }
+                        jobs.push(Job::new(format!("adj-un-{}-{}-{}x{}", g, w, r, c), json!({"kind": "unary", "group": g, "w": w, "r": r, "c": c, "fills": "adjacent", "sigma": b.adj_sigma, "adj": true})));
+                    }
+                }
+            }
+        }
         let t = tier.is_thorough();
         // every job carries the tier and the seed, so that a replay file is self-contained
         for j in jobs.iter_mut() {
@@ -238,6 +274,22 @@ impl Harness for C03 {
                 ("long_take_full_length", 1_400),
                 ("long_softmax", 90_000),
                 ("long_variance", 55_000),
+            ]
+        };
+        let adj_floors: Vec<(&'static str, u64)> = if no_adj {
+            Vec::new()
+        } else {
+            vec![
+                ("adjacent_family", 1_100_000),
+                ("adjacent_vec", 190_000),
+                ("adjacent_unary_matrix", 900_000),
+                ("adjacent_unique_distinct_neighbours", 50_000),
+                ("adjacent_max_min_distinct_neighbours", 45_000),
+                ("adjacent_argmax_runner_up_within_2ulp", 50_000),
+                ("adjacent_binarize_split_at_threshold", 45_000),
+                // the split between the two depends on the power of two selected by VERIF_SEED
+                ("adjacent_eq_beyond_library_tolerance", 60_000),
+                ("adjacent_eq_within_library_tolerance", 150_000),
             ]
         };
         Plan {
@@ -272,7 +324,7 @@ impl Harness for C03 {
                 ("e2_state_1xN", 10_000),
                 ("e2_state_Nx1", 10_000),
                 ("e2_state_nonsquare", 20_000),
-            ], long_floors]
+            ], long_floors, adj_floors]
             .concat(),
             bounds: json!({
                 "widths": "f64 and f32",
@@ -283,8 +335,9 @@ impl Harness for C03 {
                 "softmax": format!("every tuple of length<={} over {{0,+-1,+-400,+-745,+-1000}} as 1xN, Nx1 and 2x(N/2)", b.softmax_len),
                 "variance": format!("mu + sigma*s for every s in {{0,1,-1}}^n, 2<=n<={}, mu/sigma in {:?} (f64) / {:?} (f32), sigma in {:?}; Vec<T> and both axes of MatrixStats", b.var_n, special::offsets::<f64>(), special::offsets::<f32>(), special::SIGMAS),
                 "long_family": format!("round 2 - lengths N in {:?}: Vec<T> of length N (6 fills: 4 wide-index-coded sign patterns, large-magnitude, offset) x every vector operation, take = every single index, every pair (i,j) with j in {{0,i,N-1}}, 6 full-length index lists; every ordered pair of Vec lengths N x N' in {:?}; DenseMatrix 1xN, Nx1, 2xN, Nx2 x the 3 one-operand groups (slice ranges on the long axis: start<=2 or end>=N-2; take as for Vec; every reshape factorisation + near misses); every factorisation r x c of N x 4 signs x reshape to every factorisation and back / flatten / transpose+reshape; two operands: every left shape in {{1xN,Nx1,2xN,Nx2,3xN,Nx3}} + {:?} against the short partners and the six shapes of N' in {{N, pred N, succ N}} x 4 x 3-4 fills x 15 operations (wide index codes 1+512i+j and 2+2048i+3j); softmax: value a everywhere, b at one position, every (a,b) of the alphabet x every position x 1xN, Nx1, 2x(N/2); variance: mu+sigma*s for the 6+2N structured patterns s (3 phases of (0,1,-1), 2 phases of (1,-1), half/half, a single +1 / -1 at every position) x all offsets x sigmas x Vec / axis 0 / axis 1", b.long, long::vec_partners(&b.long), long::SMALL_PARTNERS),
+                "adjacent_floats": format!("round 7 - values one or two ulps apart: alphabet {{x, next_up(x), next_down(x)}} (built through to_bits in the width) for the centres x in {{0.3, 1, -0.7, largest below 2, 2.5, 1e-17, 0}} (f64; the analogous f32 values); EVERY assignment of the alphabet to the entries of every matrix shape with r*c<={} and every Vec<T> of length 1..{}; for every other lattice shape 1<=r,c<={} (element-wise group: 1<=r,c<={}) and the Vec lengths {:?} the 6+2n structured assignments (3 phases of the cyclic pattern over the row-major position, 3 over i+2j, x everywhere except one entry moved up / down at every position); operations: unique, max, min, sum, argmax, norm(+-inf), column_mean, mean on both axes, Vec sum / mean, binarize(_mut) with the threshold x / up(x) / down(x), `==` + approximate_eq (error 0, the difference, its predecessor) + max_diff against the identical copy and against every copy with one entry moved by +-1, +-2 ulps (`==` judged only beyond the library's absolute tolerance T::epsilon()), negative / abs, 4 scalar ops x 4 scalars and 4 element-mut ops at every position (correctly rounded); Vec basics", b.adj_sigma, b.adj_sigma, b.lat, b.adj_elem_lat, b.adj_vec_big),
                 "e2": format!("operation chains of depth<={} (f64) / {} (f32) from every index-coded shape <=2x3, 18 actions", b.e2_depth.0, b.e2_depth.1),
-                "seed": "VERIF_SEED selects the multiplier/offset applied to the index code and the softmax alphabet (8 variants; 0 = plain)",
+                "seed": "VERIF_SEED selects the multiplier/offset applied to the index code and the softmax alphabet (8 variants; 0 = plain), and the exact power of two (1, 2, 4, 1/2, 8, 16, 32, 64) that scales the centres of the adjacent floats",
             }),
         }
     }
@@ -353,6 +406,8 @@ fn fills_of(job: &Job) -> FillSet {
         FillSet::LiteWide
     } else if job.s("fills") == "codedwide" {
         FillSet::CodedWide
+    } else if job.s("fills") == "adjacent" {
+        FillSet::Adjacent { sigma_max: job.u("sigma") }
     } else {
         FillSet::Full { sigma_max: job.u("sigma") }
     }
@@ -366,6 +421,11 @@ fn run_t<T: model::W>(job: &Job, seed: u64) {
     // two-operand jobs decide per pairing (binary::run): a short x short pairing is not a long case
     model::set_long_case(long && job.kind() != "binary");
     model::set_long_deep(long && thorough);
+    let adj = job.params.get("adj").and_then(|x| x.as_bool()).unwrap_or(false);
+    model::set_adjacent_case(adj);
+    if adj {
+        mc::count("adjacent_family");
+    }
     if long {
         mc::count("long_family");
         match job.kind() {
